@@ -9,6 +9,14 @@
               same process -- (r4) on the first object again, (r5) on another fresh object, (r6) on the first object
               after ApplyParameters was called again: the six result lines must be IDENTICAL BIT PATTERNS
               (outputs at every step and final states, NaN payloads and signed zeros included);
+   intact     a later run must not alter the results of an earlier one: every output array (obtained from
+              sim.InitialiseOutputs, as ow-sim and libopenwater obtain theirs) and state array of all the runs of a PURITY
+              line is kept alive with a bit-pattern snapshot and re-read after EVERY later run (same model type and
+              shape, other models, truncated runs);
+   large      size thresholds: a few models per run are also run at LARGE shapes (harness command LARGE: 40 cells x 1700
+              steps, 1 x 70000, 16 x 70000: output arrays >= 2^16 and >= 2^20 elements), two consecutive generations
+              of the same model type with generation 1's arrays kept alive while generation 2 runs, then generation 1
+              again on a privately allocated array: digests of the bit patterns must agree (kept = original = repeat);
    causality  for EVERY truncation point t = 1..24: the run on the first t steps only gives exactly the first t
               outputs of r1, and the run on inputs[:t] ++ other[t:] (tail replaced by a rotated / reversed copy of
               the series) gives the same first t outputs.
@@ -66,6 +74,13 @@ def outputs_part(part):
 def replay(path):
     d = json.load(open(path))
     owrun = os.environ.get('C14_OWRUN') or build_private_owrun('owrun-c14')
+    if 'large_line' in d:
+        res = run_filtered(owrun, [d['large_line']], 'CRASH', env=GOENV)[0]
+        tk = res.split()
+        print('model', d['model'], 'cells', d['cells'], 'steps', d['steps'], '->', res[:300])
+        okl = res.startswith('OK N') and len(tk) == 20 and tk[6:8] == tk[12:14] and tk[9:11] == tk[18:20] and tk[6:8] == tk[15:17]
+        print('earlier generations intact and repeatable' if okl else 'FAIL: kept / repeated arrays differ (G1 vs K1, G2 vs K2, G1 vs G3)')
+        sys.exit(0 if okl else 1)
     res = run_filtered(owrun, [d['purity_line']], 'CRASH', env=GOENV)[0]
     parts = [p.strip() for p in res.split(' | ')]
     print('model', d['model'], 'kind', d.get('kind'))
@@ -79,6 +94,12 @@ def replay(path):
 def judge_parts(parts, truncs):
     """-> list of (kind, detail) failures of the purity / causality oracle on one PURITY answer"""
     bad = []
+    if parts and parts[-1].startswith('KEPT'):
+        kt = parts[-1].split()
+        parts = parts[:-1]
+        if int(kt[2]) > 0:
+            bad.append(('purity:earlier-results-altered', '%s of %s re-reads of kept output/state arrays differ from their snapshot: %s'
+                        % (kt[2], kt[1], ' '.join(kt[3:]))))
     r1 = parts[0]
     for name, p in zip(SITUATIONS, parts[1:6]):
         if p != r1:
@@ -196,7 +217,7 @@ def main():
             c.violation('purity_%s_%d.json' % (m, i), dict(desc, kind='run-fails-in-PURITY-but-returned-alone', answer=res[:200]))
             continue
         parts = [p.strip() for p in res.split(' | ')]
-        if len(parts) != 6 + 2 * len(truncs):
+        if len(parts) != 6 + 2 * len(truncs) + 1 or not parts[-1].startswith('KEPT'):
             c.violation('purity_%s_%d.json' % (m, i), dict(desc, kind='malformed-answer', answer=res[:200]))
             continue
         # the first run must be the run of phase 1 (a separate process): purity across processes
@@ -211,6 +232,8 @@ def main():
             for kind in ('truncated', 'tail-replaced'):
                 c.count((m, cs['params'], cs['states'], cs['inputs'], kind, t), nontrivial=nt)
                 st['causality_comparisons'] += 1
+        c.count((m, cs['params'], cs['states'], cs['inputs'], 'earlier-results-stay-intact'), nontrivial=nt)
+        st['kept_array_rereads'] = st.get('kept_array_rereads', 0) + int(parts[-1].split()[1])
         if bad:
             c.violation('purity_%s_%d.json' % (m, i), dict(desc, kind=bad[0][0], difference=bad[0][1],
                                                            all_failures=[list(b) for b in bad[:20]]))
@@ -253,16 +276,57 @@ def main():
                                           'line': line[:3000]})
                     break
 
+    # ---- phase 4: LARGE shapes (size thresholds are a class of change the 25-step cases cannot see): two consecutive
+    # generations of the same model type, output arrays from sim.InitialiseOutputs of >= 2^16 and >= 2^20 elements,
+    # generation 1 kept alive while generation 2 runs, then generation 1 again on a privately allocated array
+    large_stats = {'cases': 0, 'digest_comparisons': 0, 'shapes': [], 'largest_output_array_elements': 0}
+    pool = [cs for cs in ok if cs['model'] != 'Storage' and nontrivial(cs['whole'])]   # Storage: tiled series can hit its agreed crash
+    shapes = [(40, 1700, 3), (1, 70000, 3), (16, 70000, 2)] if quick else [(40, 1700, 6), (1, 70000, 6), (16, 70000, 3), (3, 400000, 2)]
+    llines, lmeta = [], []
+    for (nc, T, k) in shapes:
+        for cs in (rng.sample(pool, k) if len(pool) >= k else pool):
+            llines.append('LARGE %s %s CELLS %d STEPS %d' % (cs['model'], case_tokens(cs), nc, T))
+            lmeta.append((cs, nc, T))
+    lres = run_filtered(owrun, llines, 'CRASH', env=GOENV)
+    for (cs, nc, T), line, res in zip(lmeta, llines, lres):
+        m = cs['model']
+        tk = res.split()
+        desc = dict(brief(cs), large_line=line, cells=nc, steps=T)
+        large_stats['cases'] += 1
+        if not res.startswith('OK N') or len(tk) != 20:
+            c.count((m, nc, T, cs['params'], 'large'), nontrivial=False)
+            c.violation('large_%s_%dx%d.json' % (m, nc, T), dict(desc, kind='large-run-fails', answer=res[:200]))
+            continue
+        nel, nz = int(tk[2]), int(tk[4])
+        g1, g2, k1, g3, k2 = tk[6:8], tk[9:11], tk[12:14], tk[15:17], tk[18:20]
+        large_stats['shapes'].append({'model': m, 'cells': nc, 'steps': T, 'output_array_elements': nel, 'nonzero_outputs': nz})
+        large_stats['largest_output_array_elements'] = max(large_stats['largest_output_array_elements'], nel)
+        for what, a, b in (('generation-1-arrays-altered-by-generation-2', g1, k1),
+                           ('generation-2-arrays-altered-by-a-later-run', g2, k2),
+                           ('generation-1-differs-when-repeated-on-a-private-array', g1, g3)):
+            c.count((m, nc, T, cs['params'], cs['inputs'], what), nontrivial=nz > 0)
+            large_stats['digest_comparisons'] += 1
+            if a != b:
+                c.violation('large_%s_%dx%d.json' % (m, nc, T),
+                            dict(desc, kind='purity:' + what, output_array_elements=nel,
+                                 difference='digests (outputs, states) %s vs %s' % (a, b)))
+                break
+
     c.cov['rule'] = ('per catalogue model (all 41): parameter vectors, initial states and 25-step input series from the generators of the '
                      'model\'s own check (C10/C11/C12/C13/C16/C19/C20); each returning case is run six times in one process (same object '
                      'twice, fresh object, same and fresh object after three other randomly chosen catalogue models have run, same object '
                      'after ApplyParameters again) plus once in another process, and 2 x 24 times with the inputs truncated at / replaced '
                      'after every t = 1..24; one evaluation = one bit comparison of a run with the reference run (5 purity situations + 48 '
-                     'causality runs per case); non-trivial = the reference run has at least one non-zero output; distinct by '
-                     '(model, parameters, states, inputs, situation or (kind, t))')
+                     'causality runs per case + 1 for "earlier results stay intact": every output array (sim.InitialiseOutputs) and state '
+                     'array of all those runs is kept alive and re-read bit for bit after every later run); plus LARGE cases: models drawn '
+                     'from the returning cases, the 25-step series tiled to 40 x 1700, 1 x 70000 and 16 x 70000 (cells x steps; output '
+                     'arrays >= 2^16 and >= 2^20 elements), two consecutive generations of the same model type with generation 1 kept '
+                     'alive, compared by digests of the bit patterns; non-trivial = the reference run has at least one non-zero output; '
+                     'distinct by (model, parameters, states, inputs, situation or (kind, t))')
     c.finish(extra_cov={'per_model': stats, 'models': len(stats), 'series_length': N, 'exhaustive': False,
                         'cases_rerun_without_tail_replacement_after_a_process_crash': fallback,
-                        'truncation_points_per_case': len(truncs),
+                        'truncation_points_per_case': len(truncs), 'large_cases': large_stats,
+                        'kept_array_rereads': sum(s.get('kept_array_rereads', 0) for s in stats.values()),
                         'oracle': 'identical IEEE-754 bit patterns of all outputs and final states (purity); identical bit patterns of the '
                                   'first t outputs (causality)'},
              assumptions=['purity of the Gallina kernels is by construction (closed functions); what is tested is the implementation',
